@@ -65,7 +65,7 @@ def sampler_configs(draw, classes=CLASSES, max_d=4, target_kinds=("gauss", "gaus
                       "mass_log": [draw(st.floats(-1, 1)) for _ in range(d)], "mass_corr": draw(st.floats(-0.6, 0.6)),
                       "grad": draw(st.booleans()),
                       # whole-number inverse masses may be given as Python ints / integer arrays
-                      "mass_int": draw(st.sampled_from([False, False, False, True]))}
+                      "mass_int": draw(st.sampled_from([False, False, False, True, "int8", "uint8"]))}
     if cls == "ensemble":
         cfg["ens"] = {"extra_walkers": draw(st.integers(1, 6)), "alpha": draw(st.sampled_from([2.0, 1.5, 3.0, draw(st.floats(1.2, 5))])),
                       # whole-number starting positions may be held in an integer array
@@ -183,6 +183,16 @@ def build(cfg, target=None, record=True):
     start = start_of(cfg)
     widths = widths_of(cfg)
     box = box_of(cfg)
+    # the numeric types in which the caller holds the same numbers (cfg["prec"]): single-precision start / widths, a temperature or
+    # mass taken from a numpy array (numpy scalar), a matrix mass that is a strided view
+    prec = cfg.get("prec") or {}
+    T_arg = cfg["T"]
+    if prec.get("T") == "numpy":
+        T_arg = np.array([cfg["T"]])[0]
+    if prec.get("widths") == "float32":
+        widths = widths.astype(np.float32)
+    if prec.get("start") == "float32" and box is None and not cfg.get("limits"):
+        start = start.astype(np.float32)
     info = {"start": start, "widths": widths, "box": box}
     kw = {"display_progress": cfg.get("display_progress", True)}
     bounds_arg = None
@@ -199,7 +209,7 @@ def build(cfg, target=None, record=True):
         warnings.simplefilter("ignore")
         if cls in ("gibbs", "metropolis"):
             C = GibbsChain if cls == "gibbs" else MetropolisChain
-            ch = C(posterior=tgt, start=start, widths=None if cfg.get("default_widths") else widths, temperature=cfg["T"], **kw)
+            ch = C(posterior=tgt, start=start, widths=None if cfg.get("default_widths") else widths, temperature=T_arg, **kw)
             for i in range(len(cfg.get("limits", []))):
                 kind = limit_kind(cfg, i)
                 if kind in ("bounded", "both"):
@@ -207,7 +217,7 @@ def build(cfg, target=None, record=True):
                 if kind in ("nonneg", "both"):
                     ch.set_non_negative(i, True)
         elif cls == "pca":
-            ch = PcaChain(posterior=tgt, start=start, widths=widths, temperature=cfg["T"], bounds=bounds_arg, **kw)
+            ch = PcaChain(posterior=tgt, start=start, widths=widths, temperature=T_arg, bounds=bounds_arg, **kw)
         elif cls == "hmc":
             h = cfg["hmc"]
             c, s = centre_scale(cfg)
@@ -226,7 +236,19 @@ def build(cfg, target=None, record=True):
             if h.get("mass_int") and h["mass"] == "scalar":
                 inv_mass = int(max(1, round(inv_mass)))
             elif h.get("mass_int") and h["mass"] == "vector":
-                inv_mass = np.maximum(1, np.round(inv_mass)).astype(np.int64)
+                # (whole-number masses in an integer array; narrow types if they can hold them)
+                inv_mass = np.maximum(1, np.round(inv_mass))
+                inv_mass = inv_mass.astype(h["mass_int"] if isinstance(h["mass_int"], str) and inv_mass.max() <= 127 else np.int64)
+            if prec.get("mass") == "view" and h["mass"] == "matrix":
+                big = np.zeros((2 * d, 2 * d))
+                big[::2, ::2] = inv_mass
+                inv_mass = big[::2, ::2]
+            elif prec.get("mass") == "view" and h["mass"] == "vector":
+                big = np.zeros(2 * d)
+                big[::2] = inv_mass
+                inv_mass = big[::2]
+            elif prec.get("mass") == "view" and h["mass"] == "scalar":
+                inv_mass = np.array([inv_mass])[0]          # a numpy scalar
             info["inv_mass"] = inv_mass
             eps = float(np.min(s)) * 10 ** h["eps_log"]
             if inv_mass is not None:
@@ -235,7 +257,7 @@ def build(cfg, target=None, record=True):
                 eps = float(np.min(s)) * 10 ** h["eps_log"] / float(scale)
             info["epsilon"] = eps
             ch = HamiltonianChain(posterior=tgt, start=start, grad=(GradRecorder(tgt) if h["grad"] else None), epsilon=eps,
-                                  temperature=cfg["T"], bounds=bounds_arg, inverse_mass=inv_mass, **kw)
+                                  temperature=T_arg, bounds=bounds_arg, inverse_mass=inv_mass, **kw)
         elif cls == "ensemble":
             n_w = d + cfg["ens"]["extra_walkers"] + 1
             g = rngctl.rng(cfg["seed"], 21)
@@ -264,13 +286,15 @@ def build(cfg, target=None, record=True):
 class GradRecorder:
     """picklable gradient callable that records where it was evaluated"""
 
-    def __init__(self, target):
+    def __init__(self, target, dtype=None):
         self.target = target
         self.points = []
+        self.dtype = dtype if dtype is not None else target.spec.get("grad_dtype")
 
     def __call__(self, theta):
         self.points.append(np.array(theta, dtype=float, copy=True))
-        return self.target.grad(theta)
+        g = self.target.grad(theta)
+        return np.asarray(g).astype(self.dtype) if self.dtype else g
 
 
 def n_stored(ch):
